@@ -52,6 +52,7 @@ func checkC14(P *core.Program, R *core.Report) {
 	checkCancelVest(P, R)
 	checkProcessVesting(P, R)
 	checkVestNow(P, R)
+	checkEntryKept(P, R)
 }
 
 func checkVestedSoFar(P *core.Program, R *core.Report) {
@@ -504,4 +505,112 @@ func checkVestNow(P *core.Program, R *core.Report) {
 		}
 	}
 	R.Add("C14-vest-now", key, "deduct msg.Amount ↔ pay msg.Amount.Quo(VestNowFactor)", P.Pos(fn.Pos()), deductOK && payOK, "vest-now pays exactly amount divided by the configured factor for the amount deducted")
+}
+
+// checkEntryKept: a vesting entry disappears from the account's list only when nothing of it
+// is left to release.  In every function that rebuilds the VestingTokens list in a loop
+// (append of the entry into a fresh slice), each way through one iteration that does NOT
+// append the entry must carry ClaimedAmount ≥ TotalAmount (== or ≥) of that entry.
+func checkEntryKept(P *core.Program, R *core.Report) {
+	for _, key := range []string{"x/commitment/keeper.Keeper.ClaimVesting", "x/commitment/keeper.msgServer.CancelVest"} {
+		fn := P.Fn(key)
+		if fn == nil {
+			R.Add("C14-entry-kept", key, "function", "-", false, "unresolved anchor")
+			continue
+		}
+		ff := P.Facts(fn)
+		isKeep := func(in ssa.Instruction) bool {
+			c, ok := in.(ssa.CallInstruction)
+			if !ok {
+				return false
+			}
+			b, isB := c.Common().Value.(*ssa.Builtin)
+			return isB && b.Name() == "append" && strings.Contains(c.Common().Args[0].Type().String(), "VestingTokens")
+		}
+		var keepBlocks []*ssa.BasicBlock
+		for _, b := range fn.Blocks {
+			for _, in := range b.Instrs {
+				if isKeep(in) {
+					keepBlocks = append(keepBlocks, b)
+				}
+			}
+		}
+		if len(keepBlocks) == 0 {
+			R.Add("C14-entry-kept", key, "rebuild loop", P.Pos(fn.Pos()), false, "no append of a vesting entry found (anchor changed)")
+			continue
+		}
+		role := func(_ string, v ssa.Value) (string, bool) {
+			if v == nil {
+				return "", false
+			}
+			if _, is := fieldLoad(ff, v, "ClaimedAmount"); is {
+				return "CLAIMED", true
+			}
+			if _, is := fieldLoad(ff, v, "TotalAmount"); is {
+				return "TOTAL", true
+			}
+			return "", false
+		}
+		want := core.ParsePoly("CLAIMED - TOTAL")
+		bad := ""
+		nLatch := 0
+		for _, b := range fn.Blocks {
+			for _, sb := range b.Succs {
+				if !sb.Dominates(b) || len(b.Instrs) == 0 {
+					continue
+				}
+				inLoop := false
+				for _, kb := range keepBlocks {
+					if sb.Dominates(kb) {
+						// the append lies inside this loop: it can get back to the header
+						if _, back := core.ReachesWithout(fn, kb.Instrs[0], func(in ssa.Instruction) bool { return in.Block() == sb }, nil); back {
+							inLoop = true
+						}
+					}
+				}
+				if !inLoop {
+					continue
+				}
+				nLatch++
+				paths, ok := ff.PathsTo(b.Instrs[len(b.Instrs)-1])
+				if !ok {
+					bad = "too many paths"
+					continue
+				}
+				for _, p := range paths {
+					kept := false
+					for _, pb := range p.Blocks {
+						for _, in := range pb.Instrs {
+							if isKeep(in) {
+								kept = true
+							}
+						}
+					}
+					if kept {
+						continue
+					}
+					done := false
+					atoms := append(append([]*core.Atom{}, p.Atoms...), ff.EdgeFacts(b, sb)...)
+					for _, a := range atoms {
+						if (a.Rel != core.EQ && a.Rel != core.LE) || a.A == nil || a.B == nil || a.A == core.ZeroMarker || a.B == core.ZeroMarker || a.B == core.NilMarker {
+							continue
+						}
+						if !core.IsMathType(a.A.Type()) || !core.IsMathType(a.B.Type()) {
+							continue
+						}
+						// LE(A,B): B − A ≥ 0 ; EQ either way
+						d, okR := ff.PolyOf(a.B).Sub(ff.PolyOf(a.A)).Rename(role)
+						if okR && (d.Equal(want) || (a.Rel == core.EQ && d.Neg().Equal(want))) {
+							done = true
+						}
+					}
+					if !done {
+						bad = "an entry can be left out of the rebuilt list without ClaimedAmount ≥ TotalAmount"
+					}
+				}
+			}
+		}
+		R.Add("C14-entry-kept", key, "entry dropped only when fully claimed", P.Pos(fn.Pos()), bad == "" && nLatch > 0,
+			"rebuilding the vesting list keeps every entry that still has something to release. "+bad)
+	}
 }
